@@ -872,6 +872,17 @@ def run(ctx: Ctx) -> int:
             ctx.oblige("C03.R5", ok, c, "a failure of this auxiliary json.loads is absorbed on the spot" if ok else f"`{src(c, 50)}` in {fq_} runs outside json mode with nothing absorbing JSONDecodeError: under parser_mode='toml', text that looks like a JSON list / dict but is not JSON (`[a, b]`, `{{\"n\": 2,}}`, the valid TOML `[table]`) makes a raw json.JSONDecodeError leave parse_string / parse_path / --cfg FILE", fn=fn_)
     ctx.floor("C03.R5-json-decoders", n_jl, 2)
 
+    # set_loader REPLACES what a mode had: its loader and the exceptions that loader raises travel together.  If the
+    # exceptions of a mode that already has an entry (yaml, json, or a mode set earlier) were kept, the new loader's
+    # failures would not be among the anticipated ones
+    fsl = ctx.func("_loaders_dumpers:set_loader")
+    slp = [a.arg for a in fsl.args.args]
+    ctx.need(len(slp) >= 3, "set_loader(mode, loader_fn, exceptions, ...)")
+    for table, par in (("loaders", slp[1]), ("loader_exceptions", slp[2])):
+        st_ = [s_ for s_ in walk_local(fsl) if isinstance(s_, ast.Assign) and isinstance(s_.targets[0], ast.Subscript) and isinstance(s_.targets[0].value, ast.Name) and s_.targets[0].value.id == table and isinstance(s_.targets[0].slice, ast.Name) and s_.targets[0].slice.id == slp[0] and isinstance(s_.value, ast.Name) and s_.value.id == par]
+        ok = len(st_) == 1 and not guard_chain(st_[0], stop=fsl)
+        ctx.oblige("C03.R5", ok, st_[0] if st_ else fsl, f"set_loader overwrites {table}[{slp[0]}] with `{par}`" if ok else f"set_loader does not (unconditionally) overwrite {table}[{slp[0]}] with `{par}`: after set_loader('yaml', json.loads, exceptions=(JSONDecodeError,)) the mode keeps the exception tuple it had, and the new loader's JSONDecodeError leaves parse_string", fn=fsl, construct=f"set_loader overwrites {table}")
+
     # ---------------- C03.R13 (an index guarded by a too weak length test) --------------------------------------------
     # `len(x) > n and ... x[k]`: the author checked the length, so the index is meant to be safe - it is only if k <= n
     # (k < n for `>=` / `==`).  A guard that is too weak turns a rejected value into an IndexError out of every parse method.
